@@ -436,23 +436,88 @@ Section LoopReplay.
   Variable force : bool.
   Let c : cfg := {| c_flavor := FObjectSet; c_force := force |}.
 
-  (** A delegated phase the ObjectSet controller has nothing to write for: its phase object exists, is controlled
-      by the ObjectSet, its spec.paused is in sync, and the reference to it is already recorded. *)
-  Definition remote_ready (phs : list osphase) (s : oset) (rem : list (N * N)) (ph : phase) : Prop :=
+  (** ** status.remotePhases: recording a reference twice changes nothing *)
+  Definition recorded (rem : list (N * N)) (r : N * N) : Prop := add_remote rem r = rem.
+
+  Lemma add_remote_idem rem r : recorded (add_remote rem r) r.
+  Proof.
+    unfold recorded. induction rem as [|x l IH]; cbn.
+    - now rewrite N.eqb_refl.
+    - destruct (fst x =? fst r) eqn:E; cbn; [now rewrite N.eqb_refl|]. now rewrite E, IH.
+  Qed.
+
+  Lemma recorded_add rem r r' : recorded rem r -> fst r' <> fst r \/ r' = r -> recorded (add_remote rem r') r.
+  Proof.
+    intros Hrec [Hne | ->]; [|apply add_remote_idem].
+    unfold recorded in *. induction rem as [|x l IH]; cbn in *; [discriminate|].
+    destruct (fst x =? fst r) eqn:E.
+    - injection Hrec as <-. apply N.eqb_neq in Hne. rewrite N.eqb_sym in Hne. rewrite Hne. cbn. now rewrite N.eqb_refl.
+    - injection Hrec as Hrec. destruct (fst x =? fst r') eqn:E'; cbn.
+      + apply N.eqb_neq in Hne. rewrite Hne. now rewrite Hrec.
+      + rewrite E. now rewrite (IH Hrec).
+  Qed.
+
+  Lemma fold_recorded ps : forall rem, (forall p, In p ps -> recorded rem p) -> fold_left add_remote ps rem = rem.
+  Proof.
+    induction ps as [|p ps IH]; intros rem H; cbn; [reflexivity|].
+    rewrite (H p (or_introl eq_refl)). apply IH. intros q Hq. apply H. now right.
+  Qed.
+
+  Lemma fold_keeps_recorded ps r : forall rem,
+    recorded rem r -> (forall p, In p ps -> fst p <> fst r \/ p = r) -> recorded (fold_left add_remote ps rem) r.
+  Proof.
+    induction ps as [|p ps IH]; intros rem Hr Hc; cbn; [exact Hr|].
+    apply IH; [|intros q Hq; apply Hc; now right]. apply recorded_add; [exact Hr|]. apply Hc. now left.
+  Qed.
+
+  (** references that agree on the uid whenever they agree on the name are all recorded after they were all added *)
+  Lemma fold_records_all ps : forall rem,
+    (forall p q, In p ps -> In q ps -> fst p = fst q -> p = q) ->
+    forall p, In p ps -> recorded (fold_left add_remote ps rem) p.
+  Proof.
+    induction ps as [|x ps IH]; intros rem Hfun p Hp; [destruct Hp|]. cbn.
+    assert (Hfun' : forall a b, In a ps -> In b ps -> fst a = fst b -> a = b) by (intros a b Ha Hb; apply Hfun; now right).
+    destruct Hp as [<-|Hp]; [|now apply IH].
+    apply fold_keeps_recorded; [apply add_remote_idem|].
+    intros q Hq. destruct (N.eq_dec (fst q) (fst x)) as [E|E]; [right|now left]. apply Hfun; auto; [now right|now left].
+  Qed.
+
+  (** ** delegated phases *)
+  (** A delegated phase whose phase object the ObjectSet controller does not write to: it exists, is controlled by
+      the ObjectSet and its spec.paused is in sync. *)
+  Definition remote_ok (phs : list osphase) (s : oset) (ph : phase) : Prop :=
     let d := desired_phase s ph in
     exists cur, find_phase phs (oi_kind (op_id d)) (oi_ns (op_id d)) (oi_name (op_id d)) = Some cur /\
       controlled_by_uid (op_owners cur) (oi_uid (os_id s)) = true /\
-      op_paused cur = op_paused d /\
-      add_remote rem (oi_name (op_id d), oi_uid (op_id cur)) = rem.
+      op_paused cur = op_paused d.
 
-  Lemma remote_reconcile_ready sw s s' ph rem :
-    remote_ready (sw_phases sw) s rem ph ->
-    desired_phase s' ph = desired_phase s ph -> oi_uid (os_id s') = oi_uid (os_id s) ->
-    exists cur n, remote_reconcile sw s' ph rem = (sw, [SPhase (PGet n (Some cur))], rem, relay cur) /\
-                  remote_reconcile sw s ph rem = (sw, [SPhase (PGet n (Some cur))], rem, relay cur).
+  (** the reference (name, uid) to the phase object of a delegated phase *)
+  Definition remote_ref (phs : list osphase) (s : oset) (ph : phase) (p : N * N) : Prop :=
+    let d := desired_phase s ph in
+    exists cur, find_phase phs (oi_kind (op_id d)) (oi_ns (op_id d)) (oi_name (op_id d)) = Some cur /\
+      p = (oi_name (op_id d), oi_uid (op_id cur)).
+
+  (** ... and the reference to it is already in status.remotePhases *)
+  Definition remote_ready (phs : list osphase) (s : oset) (rem : list (N * N)) (ph : phase) : Prop :=
+    remote_ok phs s ph /\ forall p, remote_ref phs s ph p -> recorded rem p.
+
+  Lemma remote_ref_fun phs s ph ph' p q :
+    remote_ref phs s ph p -> remote_ref phs s ph' q -> fst p = fst q -> p = q.
   Proof.
-    intros (cur & Hf & Hc & Hp & Ha) Hd Hu. exists cur, (oi_name (op_id (desired_phase s ph))).
-    unfold remote_reconcile. cbv zeta. rewrite Hd, Hu, Hf, Hc. cbn [negb]. rewrite Ha, Hp, eqb_reflx. split; reflexivity.
+    unfold remote_ref. cbn. intros (cur & Hf & ->) (cur' & Hf' & ->). cbn. intros E. rewrite E in Hf. rewrite Hf in Hf'.
+    injection Hf' as ->. now rewrite E.
+  Qed.
+
+  Lemma remote_reconcile_ok sw s s' ph rem :
+    remote_ok (sw_phases sw) s ph ->
+    desired_phase s' ph = desired_phase s ph -> oi_uid (os_id s') = oi_uid (os_id s) ->
+    let d := desired_phase s ph in
+    exists cur, find_phase (sw_phases sw) (oi_kind (op_id d)) (oi_ns (op_id d)) (oi_name (op_id d)) = Some cur /\
+      remote_reconcile sw s' ph rem =
+      (sw, [SPhase (PGet (oi_name (op_id d)) (Some cur))], add_remote rem (oi_name (op_id d), oi_uid (op_id cur)), relay cur).
+  Proof.
+    intros (cur & Hf & Hc & Hp) Hd Hu. exists cur. split; [exact Hf|].
+    unfold remote_reconcile. cbv zeta. rewrite Hd, Hu, Hf, Hc. cbn [negb]. rewrite Hp, eqb_reflx. reflexivity.
   Qed.
 
   (** events of a loop that changed nothing *)
@@ -469,58 +534,62 @@ Section LoopReplay.
   Lemma with_w_self sw : with_w sw (sw_w sw) = sw.
   Proof. destruct sw; reflexivity. Qed.
 
+  (** The loop replayed. The first run gathers the references [ps] of the delegated phases it passes; a second run
+      in a world that agrees with the output world on the member keys - from ANY list of references - returns the
+      same result, gathers the same references and changes nothing. *)
   Lemma rpm_replay s ow prev phs : forall sw acc rem sw2 evs rem2 r,
     ow_paused ow = false ->
     NoDup (local_keys ow phs) ->
     (forall ph p cu, In ph phs -> ph_class ph = false -> In p (ph_objects ph) ->
                      lookup (key_of ow p) (w_store (sw_w sw)) = Some cu -> obj_wf Native (ow_id ow) cu) ->
-    (forall ph, In ph phs -> ph_class ph = true -> remote_ready (sw_phases sw) s rem ph) ->
+    (forall ph, In ph phs -> ph_class ph = true -> remote_ok (sw_phases sw) s ph) ->
     reconcile_phases_m force sw s ow prev phs acc rem = (sw2, evs, rem2, r) ->
-    rem2 = rem /\ sw_phases sw2 = sw_phases sw /\ sw_sets sw2 = sw_sets sw /\ sw_nss sw2 = sw_nss sw /\
-    forall sw' s',
-      (forall k, In k (local_keys ow phs) -> lookup k (w_store (sw_w sw')) = lookup k (w_store (sw_w sw2))) ->
-      sw_phases sw' = sw_phases sw ->
-      (forall ph, desired_phase s' ph = desired_phase s ph) -> oi_uid (os_id s') = oi_uid (os_id s) ->
-      exists evs2, reconcile_phases_m force sw' s' ow prev phs acc rem = (sw', evs2, rem, r) /\
-                   Forall quiet_lev evs2 /\ (r <> MErr ErrInvalid -> Forall noop_lev evs2).
+    sw_phases sw2 = sw_phases sw /\ sw_sets sw2 = sw_sets sw /\ sw_nss sw2 = sw_nss sw /\
+    exists ps, rem2 = fold_left add_remote ps rem /\
+      (forall p, In p ps -> exists ph, In ph phs /\ ph_class ph = true /\ remote_ref (sw_phases sw) s ph p) /\
+      forall sw' s' rem',
+        (forall k, In k (local_keys ow phs) -> lookup k (w_store (sw_w sw')) = lookup k (w_store (sw_w sw2))) ->
+        sw_phases sw' = sw_phases sw ->
+        (forall ph, desired_phase s' ph = desired_phase s ph) -> oi_uid (os_id s') = oi_uid (os_id s) ->
+        exists evs2, reconcile_phases_m force sw' s' ow prev phs acc rem' = (sw', evs2, fold_left add_remote ps rem', r) /\
+                     Forall quiet_lev evs2 /\ (r <> MErr ErrInvalid -> Forall noop_lev evs2).
   Proof.
     induction phs as [|ph rest IH]; intros sw acc rem sw2 evs rem2 r Hpa Hnd Hwf Hrr H.
     - cbn in H. injection H as <- <- <- <-. repeat split; try reflexivity.
-      intros sw' s' _ _ _ _. exists []. cbn. repeat split; constructor.
+      exists []. split; [reflexivity|]. split; [intros p []|].
+      intros sw' s' rem' _ _ _ _. exists []. cbn. repeat split; constructor.
     - rewrite rpm_cons in H. destruct (ph_class ph) eqn:Ecl.
       + (* delegated *)
-        pose proof (Hrr ph (or_introl eq_refl) Ecl) as Hready.
-        destruct (remote_reconcile_ready sw s s ph rem Hready eq_refl eq_refl) as (cur & n & _ & Hrec).
+        pose proof (Hrr ph (or_introl eq_refl) Ecl) as Hok.
+        destruct (remote_reconcile_ok sw s s ph rem Hok eq_refl eq_refl) as (cur & Hfc & Hrec). cbv zeta in Hfc, Hrec.
+        set (pr := (oi_name (op_id (desired_phase s ph)), oi_uid (op_id cur))) in *.
+        assert (Href : remote_ref (sw_phases sw) s ph pr) by (exists cur; split; [exact Hfc|reflexivity]).
         rewrite Hrec in H.
         rewrite local_keys_cons_remote in * by exact Ecl.
+        assert (Hsecond : forall sw' s' rem', sw_phases sw' = sw_phases sw ->
+                  (forall q, desired_phase s' q = desired_phase s q) -> oi_uid (os_id s') = oi_uid (os_id s) ->
+                  remote_reconcile sw' s' ph rem' = (sw', [SPhase (PGet (fst pr) (Some cur))], add_remote rem' pr, relay cur)).
+        { intros sw' s' rem' Hph Hd Hu. rewrite <- Hph in Hok.
+          destruct (remote_reconcile_ok sw' s s' ph rem' Hok (Hd ph) Hu) as (cur' & Hfc' & Hrec'). cbv zeta in Hfc', Hrec'.
+          rewrite Hph, Hfc in Hfc'. injection Hfc' as <-. exact Hrec'. }
         destruct (relay cur) as [|active fl] eqn:Er; [exfalso; now apply (relay_not_err cur)|].
         destruct fl.
         * injection H as <- <- <- <-. repeat split; try reflexivity.
-          intros sw' s' _ Hph Hd Hu. rewrite rpm_cons, Ecl.
-          rewrite <- Hph in Hready.
-          destruct (remote_reconcile_ready sw' s s' ph rem Hready (Hd ph) Hu) as (cur' & n' & Hrec' & Hrec2).
-          rewrite Hph in Hready.
-          assert (cur' = cur /\ n' = n) as [-> ->].
-          { unfold remote_reconcile in Hrec, Hrec2. cbv zeta in Hrec, Hrec2. rewrite Hph in Hrec2.
-            destruct Hready as (cu & Hf & Hc & Hp & Ha). rewrite Hf, Hc in Hrec, Hrec2. cbn [negb] in Hrec, Hrec2.
-            rewrite Ha, Hp, eqb_reflx in Hrec, Hrec2. injection Hrec as Hn Hcu. injection Hrec2 as Hn' Hcu'. split; congruence. }
-          rewrite Hrec', Er. eexists. split; [reflexivity|]. split; [|intros _]; (constructor; [exact I|constructor]).
-        * destruct (reconcile_phases_m force sw s ow prev rest (acc ++ active) rem) as [[[swz ez] remz] rz] eqn:E2.
+          exists [pr]. split; [reflexivity|].
+          split. { intros p [<-|[]]. exists ph. split; [now left|]. split; assumption. }
+          intros sw' s' rem' _ Hph Hd Hu. rewrite rpm_cons, Ecl, (Hsecond sw' s' rem' Hph Hd Hu).
+          eexists. split; [reflexivity|]. split; [|intros _]; (constructor; [exact I|constructor]).
+        * destruct (reconcile_phases_m force sw s ow prev rest (acc ++ active) (add_remote rem pr)) as [[[swz ez] remz] rz] eqn:E2.
           injection H as <- <- <- <-.
-          destruct (IH sw (acc ++ active) rem swz ez remz rz Hpa Hnd
+          destruct (IH sw (acc ++ active) (add_remote rem pr) swz ez remz rz Hpa Hnd
                        (fun q p cu Hq => Hwf q p cu (or_intror Hq)) (fun q Hq => Hrr q (or_intror Hq)) E2)
-            as (Hrem & Hph2 & Hsets2 & Hnss2 & Hnext).
-          split; [exact Hrem|]. split; [exact Hph2|]. split; [exact Hsets2|]. split; [exact Hnss2|].
-          intros sw' s' Hl Hph Hd Hu. rewrite rpm_cons, Ecl.
-          rewrite <- Hph in Hready.
-          destruct (remote_reconcile_ready sw' s s' ph rem Hready (Hd ph) Hu) as (cur' & n' & Hrec' & Hrec2).
-          rewrite Hph in Hready.
-          assert (cur' = cur /\ n' = n) as [-> ->].
-          { unfold remote_reconcile in Hrec, Hrec2. cbv zeta in Hrec, Hrec2. rewrite Hph in Hrec2.
-            destruct Hready as (cu & Hf & Hc & Hp & Ha). rewrite Hf, Hc in Hrec, Hrec2. cbn [negb] in Hrec, Hrec2.
-            rewrite Ha, Hp, eqb_reflx in Hrec, Hrec2. injection Hrec as Hn Hcu. injection Hrec2 as Hn' Hcu'. split; congruence. }
-          rewrite Hrec', Er.
-          destruct (Hnext sw' s' Hl Hph Hd Hu) as (ez2 & -> & Hq & Hn).
+            as (Hph2 & Hsets2 & Hnss2 & ps & Hrem & Hps & Hnext).
+          split; [exact Hph2|]. split; [exact Hsets2|]. split; [exact Hnss2|].
+          exists (pr :: ps). split; [exact Hrem|].
+          split. { intros p [<-|Hp]; [exists ph; split; [now left|split; assumption]|].
+                   destruct (Hps p Hp) as (q & Hq & Hqc & Hqr). exists q. split; [now right|split; assumption]. }
+          intros sw' s' rem' Hl Hph Hd Hu. rewrite rpm_cons, Ecl, (Hsecond sw' s' rem' Hph Hd Hu).
+          destruct (Hnext sw' s' (add_remote rem' pr) Hl Hph Hd Hu) as (ez2 & -> & Hq & Hn).
           eexists. split; [reflexivity|]. split; [constructor; [exact I|exact Hq]|].
           intros Hne. constructor; [exact I|now apply Hn].
       + (* local *)
@@ -539,18 +608,21 @@ Section LoopReplay.
           now rewrite (Ha _ Hk), (Hb _ Hk). }
         destruct r1 as [e|vs|a f]; cbv beta iota zeta in H.
         * injection H as <- <- <- <-. repeat split; try reflexivity.
-          intros sw' s' Hl Hph Hd Hu. rewrite rpm_cons, Ecl. fold c.
+          exists []. split; [reflexivity|]. split; [intros p []|].
+          intros sw' s' rem' Hl Hph Hd Hu. rewrite rpm_cons, Ecl. fold c.
           destruct (Hstep sw' w1) as (e1' & -> & Hc1 & Hn1); [intros k Hk; apply Hl, in_or_app; now left|reflexivity|].
           rewrite with_w_self. eexists. split; [reflexivity|]. split; [now apply quiet_members|].
           intros Hne. apply noop_members, Hn1. intros Heq. apply Hne. now injection Heq as ->.
         * injection H as <- <- <- <-. repeat split; try reflexivity.
-          intros sw' s' Hl Hph Hd Hu. rewrite rpm_cons, Ecl. fold c.
+          exists []. split; [reflexivity|]. split; [intros p []|].
+          intros sw' s' rem' Hl Hph Hd Hu. rewrite rpm_cons, Ecl. fold c.
           destruct (Hstep sw' w1) as (e1' & -> & Hc1 & Hn1); [intros k Hk; apply Hl, in_or_app; now left|reflexivity|].
           rewrite with_w_self. eexists. split; [reflexivity|]. split; [now apply quiet_members|].
           intros _. apply noop_members, Hn1. discriminate.
         * destruct f as [|f0 fs].
           2:{ injection H as <- <- <- <-. repeat split; try reflexivity.
-              intros sw' s' Hl Hph Hd Hu. rewrite rpm_cons, Ecl. fold c.
+              exists []. split; [reflexivity|]. split; [intros p []|].
+              intros sw' s' rem' Hl Hph Hd Hu. rewrite rpm_cons, Ecl. fold c.
               destruct (Hstep sw' w1) as (e1' & -> & Hc1 & Hn1); [intros k Hk; apply Hl, in_or_app; now left|reflexivity|].
               cbv zeta. rewrite with_w_self. eexists. split; [reflexivity|]. split; [now apply quiet_members|].
               intros _. apply noop_members, Hn1. discriminate. }
@@ -564,15 +636,17 @@ Section LoopReplay.
             apply (NoDup_app_disj _ _ (key_of ow p1) Hnd); [unfold phase_keys; now apply in_map|].
             rewrite Heq. apply (in_local_keys ow q rest); auto. unfold phase_keys. now apply in_map. }
           destruct (IH (with_w sw w1) acc' rem swz ez remz rz Hpa (NoDup_app_r _ _ Hnd) Hwf1
-                       (fun q Hq => Hrr q (or_intror Hq)) E2) as (Hrem & Hph2 & Hsets2 & Hnss2 & Hnext).
-          split; [exact Hrem|]. split; [exact Hph2|]. split; [exact Hsets2|]. split; [exact Hnss2|].
-          intros sw' s' Hl Hph Hd Hu. rewrite rpm_cons, Ecl. fold c.
+                       (fun q Hq => Hrr q (or_intror Hq)) E2) as (Hph2 & Hsets2 & Hnss2 & ps & Hrem & Hps & Hnext).
+          split; [exact Hph2|]. split; [exact Hsets2|]. split; [exact Hnss2|].
+          exists ps. split; [exact Hrem|].
+          split. { intros p Hp. destruct (Hps p Hp) as (q & Hq & Hqc & Hqr). exists q. split; [now right|split; assumption]. }
+          intros sw' s' rem' Hl Hph Hd Hu. rewrite rpm_cons, Ecl. fold c.
           destruct (rpm_inv force s ow prev rest _ _ _ _ _ _ _ E2) as (_ & _ & _ & _ & Hfr & _).
           destruct (Hstep sw' swz.(sw_w)) as (e1' & -> & Hc1 & Hn1).
           { intros k Hk. apply Hl, in_or_app. now left. }
           { intros k Hk. rewrite Hfr; [reflexivity|]. now apply (NoDup_app_disj _ _ k Hnd). }
           cbv zeta. fold acc'. rewrite with_w_self.
-          destruct (Hnext sw' s' (fun k Hk => Hl k (in_or_app _ _ _ (or_intror Hk))) Hph Hd Hu) as (ez2 & -> & Hq & Hn).
+          destruct (Hnext sw' s' rem' (fun k Hk => Hl k (in_or_app _ _ _ (or_intror Hk))) Hph Hd Hu) as (ez2 & -> & Hq & Hn).
           eexists. split; [reflexivity|]. split; [apply Forall_app; split; [now apply quiet_members|exact Hq]|].
           intros Hne. apply Forall_app. split; [apply noop_members, Hn1; discriminate|now apply Hn].
   Qed.
@@ -699,18 +773,19 @@ Section PassReplay.
   (** ** a status write pinned to the stored version, and the same status sent again *)
   Lemma write_then_noop sw m st sw' mx ok :
     find_set (sw_sets sw) (oi_kind (os_id m)) (oi_ns (os_id m)) (oi_name (os_id m)) = Some st ->
-    os_rv st = os_rv m -> spec_eq m st -> os_remotes m = os_remotes st ->
+    os_rv st = os_rv m -> spec_eq m st ->
     update_status sw m = (sw', mx, ok) ->
     ok = true /\ w_store (sw_w sw') = w_store (sw_w sw) /\ sw_phases sw' = sw_phases sw /\ sw_nss sw' = sw_nss sw /\
     exists st', find_set (sw_sets sw') (oi_kind (os_id m)) (oi_ns (os_id m)) (oi_name (os_id m)) = Some st' /\
       spec_eq st' st /\ stat_eq st' m /\
-      (forall x, lookup_prev (sw_sets sw') x = lookup_prev (sw_sets sw) x) /\
+      (forall x, os_remotes m = os_remotes st \/ ~ In (oi_name (os_id st)) (os_prev x) ->
+                 lookup_prev (sw_sets sw') x = lookup_prev (sw_sets sw) x) /\
       forall m2, os_id m2 = os_id m -> os_rv m2 = os_rv st' -> stat_eq m2 m -> update_status sw' m2 = (sw', m2, true).
   Proof.
-    intros Hf Hrv Hsp Hrm Hu. pose proof Hsp as (Hid & _).
+    intros Hf Hrv Hsp Hu. pose proof Hsp as (Hid & _).
     destruct (update_status_post sw m st sw' mx ok Hf Hrv Hid Hu) as (Hok & Hst & Hph & Hns & st' & Hf' & Hsp' & Hstat & Hlp).
     split; [exact Hok|]. split; [exact Hst|]. split; [exact Hph|]. split; [exact Hns|].
-    exists st'. split; [exact Hf'|]. split; [exact Hsp'|]. split; [exact Hstat|]. split; [intros x; apply Hlp; now left|].
+    exists st'. split; [exact Hf'|]. split; [exact Hsp'|]. split; [exact Hstat|]. split; [exact Hlp|].
     intros m2 Hid2 Hrv2 Hs2. apply (update_status_noop sw' m2 st'); [now rewrite Hid2|now symmetry|].
     eapply stat_eq_trans; [exact Hstat|]. now apply stat_eq_sym.
   Qed.
@@ -718,19 +793,20 @@ Section PassReplay.
   (** the Available=False report, written and then computed again from what was stored *)
   Lemma fail_replay sw2 m st reason pevs sw3 evs r :
     find_set (sw_sets sw2) (oi_kind (os_id m)) (oi_ns (os_id m)) (oi_name (os_id m)) = Some st ->
-    os_rv st = os_rv m -> spec_eq m st -> os_remotes m = os_remotes st ->
+    os_rv st = os_rv m -> spec_eq m st ->
     fail_tail sw2 pevs m reason = (sw3, evs, r) ->
     r = SDone true /\ w_store (sw_w sw3) = w_store (sw_w sw2) /\ sw_phases sw3 = sw_phases sw2 /\ sw_nss sw3 = sw_nss sw2 /\
     exists st', find_set (sw_sets sw3) (oi_kind (os_id m)) (oi_ns (os_id m)) (oi_name (os_id m)) = Some st' /\
       spec_eq st' st /\ stat_eq st' (fail_status m reason) /\
-      (forall x, lookup_prev (sw_sets sw3) x = lookup_prev (sw_sets sw2) x) /\
+      (forall x, os_remotes m = os_remotes st \/ ~ In (oi_name (os_id st)) (os_prev x) ->
+                 lookup_prev (sw_sets sw3) x = lookup_prev (sw_sets sw2) x) /\
       forall m2 pevs2, same_but_rev m2 st' -> os_revision m2 = os_revision m ->
         fail_tail sw3 pevs2 m2 reason = (sw3, pevs2 ++ [status_ev (fail_status m2 reason) true], SDone true) /\
         quiet_sev st' (status_ev (fail_status m2 reason) true) /\ noop_sev st' (status_ev (fail_status m2 reason) true).
   Proof.
-    intros Hf Hrv Hsp Hrm. unfold fail_tail.
+    intros Hf Hrv Hsp. unfold fail_tail.
     destruct (update_status sw2 (fail_status m reason)) as [[swx mx] ok] eqn:Eu. intros H. injection H as <- <- <-.
-    destruct (write_then_noop sw2 (fail_status m reason) st swx mx ok Hf Hrv Hsp Hrm Eu)
+    destruct (write_then_noop sw2 (fail_status m reason) st swx mx ok Hf Hrv Hsp Eu)
       as (-> & Hst & Hph & Hns & st' & Hf' & Hsp' & Hstat & Hlp & Hnoop).
     split; [reflexivity|]. split; [exact Hst|]. split; [exact Hph|]. split; [exact Hns|].
     exists st'. split; [exact Hf'|]. split; [exact Hsp'|]. split; [exact Hstat|]. split; [exact Hlp|].
@@ -756,32 +832,39 @@ Section PassReplay.
   Definition members_wf (sw : sworld) (mem : oset) : Prop :=
     forall ph p cu, In ph (os_phases mem) -> ph_class ph = false -> In p (ph_objects ph) ->
       lookup (key_of (as_owner mem) p) (w_store (sw_w sw)) = Some cu -> obj_wf Native (os_id mem) cu.
-  Definition remotes_ready (sw : sworld) (mem : oset) : Prop :=
-    forall ph, In ph (os_phases mem) -> ph_class ph = true -> remote_ready (sw_phases sw) mem (os_remotes mem) ph.
+  Definition remotes_ok (sw : sworld) (mem : oset) : Prop :=
+    forall ph, In ph (os_phases mem) -> ph_class ph = true -> remote_ok (sw_phases sw) mem ph.
+  (** the references to the phase objects are already in status.remotePhases *)
+  Definition remotes_recorded (sw : sworld) (mem : oset) : Prop :=
+    forall ph p, In ph (os_phases mem) -> ph_class ph = true -> remote_ref (sw_phases sw) mem ph p -> recorded (os_remotes mem) p.
+  (** an ObjectSet does not name itself as its own previous revision *)
+  Definition not_own_prev (mem : oset) : Prop := ~ In (oi_name (os_id mem)) (os_prev mem).
   (** the status after a loop that returned, written and then computed again from what was stored *)
   Lemma ok_replay sw2 m st ctrlof failed pevs sw3 evs r :
     find_set (sw_sets sw2) (oi_kind (os_id m)) (oi_ns (os_id m)) (oi_name (os_id m)) = Some st ->
-    os_rv st = os_rv m -> spec_eq m st -> os_remotes m = os_remotes st ->
+    os_rv st = os_rv m -> spec_eq m st ->
     ok_tail sw2 pevs m ctrlof failed = (sw3, evs, r) ->
     r = SDone false /\ w_store (sw_w sw3) = w_store (sw_w sw2) /\ sw_phases sw3 = sw_phases sw2 /\ sw_nss sw3 = sw_nss sw2 /\
     exists st', find_set (sw_sets sw3) (oi_kind (os_id m)) (oi_ns (os_id m)) (oi_name (os_id m)) = Some st' /\
       spec_eq st' st /\ stat_eq st' (final_status (sw_phases sw2) m ctrlof failed) /\
-      (forall x, lookup_prev (sw_sets sw3) x = lookup_prev (sw_sets sw2) x) /\
+      (forall x, os_remotes m = os_remotes st \/ ~ In (oi_name (os_id st)) (os_prev x) ->
+                 lookup_prev (sw_sets sw3) x = lookup_prev (sw_sets sw2) x) /\
       forall m2 pevs2, same_but_rev m2 st' -> os_revision m2 = os_revision m ->
         ok_tail sw3 pevs2 m2 ctrlof failed =
         (sw3, pevs2 ++ paused_reads (sw_phases sw3) m2 ++ [status_ev_f (final_status (sw_phases sw3) m2 ctrlof failed) failed true], SDone false) /\
         quiet_sev st' (status_ev_f (final_status (sw_phases sw3) m2 ctrlof failed) failed true) /\
         noop_sev st' (status_ev_f (final_status (sw_phases sw3) m2 ctrlof failed) failed true).
   Proof.
-    intros Hf Hrv Hsp Hrm. unfold ok_tail.
+    intros Hf Hrv Hsp. unfold ok_tail.
     set (F := final_status (sw_phases sw2) m ctrlof failed).
     destruct (final_status_fields (sw_phases sw2) m ctrlof failed) as (HFsp & HFrv & HFrev & HFct & HFrm & _). fold F in HFsp, HFrv, HFrev, HFct, HFrm.
     destruct (update_status sw2 F) as [[swx mx] ok] eqn:Eu. intros H. injection H as <- <- <-.
     assert (HfF : find_set (sw_sets sw2) (oi_kind (os_id F)) (oi_ns (os_id F)) (oi_name (os_id F)) = Some st) by exact Hf.
-    destruct (write_then_noop sw2 F st swx mx ok HfF (eq_trans Hrv (eq_sym HFrv)) (spec_eq_trans _ _ _ HFsp Hsp) (eq_trans HFrm Hrm) Eu)
+    destruct (write_then_noop sw2 F st swx mx ok HfF (eq_trans Hrv (eq_sym HFrv)) (spec_eq_trans _ _ _ HFsp Hsp) Eu)
       as (-> & Hst & Hph & Hns & st' & Hf' & Hsp' & Hstat & Hlp & Hnoop).
     split; [reflexivity|]. split; [exact Hst|]. split; [exact Hph|]. split; [exact Hns|].
-    exists st'. split; [exact Hf'|]. split; [exact Hsp'|]. split; [exact Hstat|]. split; [exact Hlp|].
+    exists st'. split; [exact Hf'|]. split; [exact Hsp'|]. split; [exact Hstat|].
+    split. { intros x Hx. apply Hlp. now rewrite HFrm. }
     intros m2 pevs2 (Hsp2 & Hrv2 & Hcd2 & Hct2 & Hrm2) Hrev2. rewrite Hph.
     destruct Hstat as (Hs1 & Hs2 & Hs3 & Hs4).
     assert (Hs : spec_eq m2 m).
@@ -802,72 +885,75 @@ Section PassReplay.
   Qed.
 
   (** ** what follows the phase loop, replayed *)
-  Lemma loop_tail_replay pr sw2 pevs m st sw3 evs r :
-    find_set (sw_sets sw2) (oi_kind (os_id m)) (oi_ns (os_id m)) (oi_name (os_id m)) = Some st ->
-    same_but_rev m st ->
-    loop_tail pr sw2 pevs m = (sw3, evs, r) ->
+  (** [tail]: what the pass does after the loop; [m]: the in-memory copy of the first pass at that point; [st]: the
+      stored set; afterwards [st'] is stored: either nothing was written, or revision and remote references are persisted. *)
+  Definition tail_post (tail : sworld -> list sev -> oset -> sworld * list sev * sres)
+             (sw2 : sworld) (m st : oset) (sw3 : sworld) (r : sres) : Prop :=
     w_store (sw_w sw3) = w_store (sw_w sw2) /\ sw_phases sw3 = sw_phases sw2 /\
     exists st', find_set (sw_sets sw3) (oi_kind (os_id m)) (oi_ns (os_id m)) (oi_name (os_id m)) = Some st' /\
       spec_eq st' st /\ find_cond (os_conds st') CArchived = find_cond (os_conds st) CArchived /\
-      (st' = st \/ os_revision st' = os_revision m) /\ os_remotes st' = os_remotes m /\
-      (forall x, lookup_prev (sw_sets sw3) x = lookup_prev (sw_sets sw2) x) /\
-      forall m2 pevs2, same_but_rev m2 st' -> os_revision m2 = os_revision m ->
-        exists tl, loop_tail pr sw3 pevs2 m2 = (sw3, pevs2 ++ tl, r) /\
-                   Forall (quiet_sev st') tl /\ Forall (noop_sev st') tl.
+      ((st' = st /\ sw3 = sw2) \/ (os_revision st' = os_revision m /\ os_remotes st' = os_remotes m)) /\
+      (forall x, os_remotes m = os_remotes st \/ ~ In (oi_name (os_id st)) (os_prev x) ->
+                 lookup_prev (sw_sets sw3) x = lookup_prev (sw_sets sw2) x) /\
+      forall m2 pevs2, spec_eq m2 st' -> os_rv m2 = os_rv st' -> os_conds m2 = os_conds st' -> os_ctrlof m2 = os_ctrlof st' ->
+        os_revision m2 = os_revision m -> os_remotes m2 = os_remotes m ->
+        exists tl, tail sw3 pevs2 m2 = (sw3, pevs2 ++ tl, r) /\ Forall (quiet_sev st') tl /\ Forall (noop_sev st') tl.
+
+  Lemma fail_tail_post reason sw2 pevs m st sw3 evs r :
+    find_set (sw_sets sw2) (oi_kind (os_id m)) (oi_ns (os_id m)) (oi_name (os_id m)) = Some st ->
+    spec_eq m st -> os_rv m = os_rv st -> os_conds m = os_conds st ->
+    fail_tail sw2 pevs m reason = (sw3, evs, r) ->
+    tail_post (fun sw p x => fail_tail sw p x reason) sw2 m st sw3 r.
   Proof.
-    intros Hf (Hsp & Hrv & Hcd & Hct & Hrm).
-    assert (Gfail : forall reason, fail_tail sw2 pevs m reason = (sw3, evs, r) ->
-              w_store (sw_w sw3) = w_store (sw_w sw2) /\ sw_phases sw3 = sw_phases sw2 /\
-              exists st', find_set (sw_sets sw3) (oi_kind (os_id m)) (oi_ns (os_id m)) (oi_name (os_id m)) = Some st' /\
-                spec_eq st' st /\ find_cond (os_conds st') CArchived = find_cond (os_conds st) CArchived /\
-                (st' = st \/ os_revision st' = os_revision m) /\ os_remotes st' = os_remotes m /\
-                (forall x, lookup_prev (sw_sets sw3) x = lookup_prev (sw_sets sw2) x) /\
-                forall m2 pevs2, same_but_rev m2 st' -> os_revision m2 = os_revision m ->
-                  exists tl, fail_tail sw3 pevs2 m2 reason = (sw3, pevs2 ++ tl, r) /\
-                             Forall (quiet_sev st') tl /\ Forall (noop_sev st') tl).
-    { intros reason H.
-      destruct (fail_replay sw2 m st reason pevs sw3 evs r Hf (eq_sym Hrv) Hsp Hrm H)
-        as (-> & Hst & Hph & Hns & st' & Hf' & Hsp' & Hstat & Hlp & Hagain).
-      split; [exact Hst|]. split; [exact Hph|].
-      exists st'. split; [exact Hf'|]. split; [exact Hsp'|].
-      split. { destruct Hstat as (_ & -> & _). cbn [fail_status os_conds set_conds]. rewrite find_set_cond_other by (cbn; discriminate). now rewrite Hcd. }
-      split. { right. now destruct Hstat as (-> & _). }
-      split. { now destruct Hstat as (_ & _ & _ & ->). }
-      split; [exact Hlp|].
-      intros m2 pevs2 Hm2 Hrev2. destruct (Hagain m2 pevs2 Hm2 Hrev2) as (Hrun & Hq & Hn).
-      eexists. split; [exact Hrun|]. split; (constructor; [assumption|constructor]). }
-    assert (Gerr : (sw2, pevs, SError) = (sw3, evs, r) ->
-              w_store (sw_w sw3) = w_store (sw_w sw2) /\ sw_phases sw3 = sw_phases sw2 /\
-              exists st', find_set (sw_sets sw3) (oi_kind (os_id m)) (oi_ns (os_id m)) (oi_name (os_id m)) = Some st' /\
-                spec_eq st' st /\ find_cond (os_conds st') CArchived = find_cond (os_conds st) CArchived /\
-                (st' = st \/ os_revision st' = os_revision m) /\ os_remotes st' = os_remotes m /\
-                (forall x, lookup_prev (sw_sets sw3) x = lookup_prev (sw_sets sw2) x) /\
-                forall (m2 : oset) pevs2, same_but_rev m2 st' -> os_revision m2 = os_revision m ->
-                  exists tl, (sw3, pevs2, SError) = (sw3, pevs2 ++ tl, r) /\
-                             Forall (quiet_sev st') tl /\ Forall (noop_sev st') tl).
+    intros Hf Hsp Hrv Hcd H.
+    destruct (fail_replay sw2 m st reason pevs sw3 evs r Hf (eq_sym Hrv) Hsp H)
+      as (-> & Hst & Hph & Hns & st' & Hf' & Hsp' & Hstat & Hlp & Hagain).
+    split; [exact Hst|]. split; [exact Hph|].
+    exists st'. split; [exact Hf'|]. split; [exact Hsp'|].
+    split. { destruct Hstat as (_ & -> & _). cbn [fail_status os_conds set_conds]. rewrite find_set_cond_other by (cbn; discriminate). now rewrite Hcd. }
+    split. { right. destruct Hstat as (-> & _ & _ & ->). split; reflexivity. }
+    split; [exact Hlp|].
+    intros m2 pevs2 Hs2 Hrv2 Hcd2 Hct2 Hrev2 Hrm2.
+    assert (Hm2 : same_but_rev m2 st').
+    { split; [exact Hs2|]. split; [exact Hrv2|]. split; [exact Hcd2|]. split; [exact Hct2|]. destruct Hstat as (_ & _ & _ & ->). exact Hrm2. }
+    destruct (Hagain m2 pevs2 Hm2 Hrev2) as (Hrun & Hq & Hn).
+    eexists. split; [exact Hrun|]. split; (constructor; [assumption|constructor]).
+  Qed.
+
+  Lemma loop_tail_replay pr sw2 pevs m st sw3 evs r :
+    find_set (sw_sets sw2) (oi_kind (os_id m)) (oi_ns (os_id m)) (oi_name (os_id m)) = Some st ->
+    spec_eq m st -> os_rv m = os_rv st -> os_conds m = os_conds st ->
+    loop_tail pr sw2 pevs m = (sw3, evs, r) ->
+    tail_post (loop_tail pr) sw2 m st sw3 r.
+  Proof.
+    intros Hf Hsp Hrv Hcd.
+    assert (Gerr : (sw2, pevs, SError) = (sw3, evs, r) -> tail_post (fun sw p (_ : oset) => (sw, p, SError)) sw2 m st sw3 r).
     { intros H. injection H as <- <- <-. split; [reflexivity|]. split; [reflexivity|].
-      exists st. split; [exact Hf|]. split; [apply spec_eq_refl|]. split; [reflexivity|]. split; [now left|].
-      split; [now symmetry|]. split; [reflexivity|].
-      intros m2 pevs2 _ _. exists []. rewrite app_nil_r. repeat split; constructor. }
+      exists st. split; [exact Hf|]. split; [apply spec_eq_refl|]. split; [reflexivity|]. split; [left; now split|].
+      split; [reflexivity|].
+      intros m2 pevs2 _ _ _ _ _ _. exists []. rewrite app_nil_r. repeat split; constructor. }
     destruct pr as [e| | |ctrlof failed]; cbn [loop_tail].
-    - destruct e; first [apply (Gfail RCollisionDetected)|exact Gerr].
+    - destruct e; first [exact (fail_tail_post RCollisionDetected sw2 pevs m st sw3 evs r Hf Hsp Hrv Hcd)|exact Gerr].
     - exact Gerr.
-    - apply (Gfail RPreflightError).
+    - exact (fail_tail_post RPreflightError sw2 pevs m st sw3 evs r Hf Hsp Hrv Hcd).
     - intros H.
-      destruct (ok_replay sw2 m st ctrlof failed pevs sw3 evs r Hf (eq_sym Hrv) Hsp Hrm H)
+      destruct (ok_replay sw2 m st ctrlof failed pevs sw3 evs r Hf (eq_sym Hrv) Hsp H)
         as (-> & Hst & Hph & Hns & st' & Hf' & Hsp' & Hstat & Hlp & Hagain).
       split; [exact Hst|]. split; [exact Hph|].
       destruct (final_status_fields (sw_phases sw2) m ctrlof failed) as (_ & _ & HFrev & _ & HFrm & HFar).
       exists st'. split; [exact Hf'|]. split; [exact Hsp'|].
       split. { destruct Hstat as (_ & -> & _). now rewrite HFar, Hcd. }
-      split. { right. destruct Hstat as (-> & _). exact HFrev. }
-      split. { destruct Hstat as (_ & _ & _ & ->). exact HFrm. }
+      split. { right. destruct Hstat as (-> & _ & _ & ->). split; assumption. }
       split; [exact Hlp|].
-      intros m2 pevs2 Hm2 Hrev2. destruct (Hagain m2 pevs2 Hm2 Hrev2) as (Hrun & Hq & Hn).
+      intros m2 pevs2 Hs2 Hrv2 Hcd2 Hct2 Hrev2 Hrm2.
+      assert (Hm2 : same_but_rev m2 st').
+      { split; [exact Hs2|]. split; [exact Hrv2|]. split; [exact Hcd2|]. split; [exact Hct2|]. destruct Hstat as (_ & _ & _ & ->). now rewrite HFrm. }
+      destruct (Hagain m2 pevs2 Hm2 Hrev2) as (Hrun & Hq & Hn).
       eexists. split; [exact Hrun|].
       destruct (paused_reads_quiet st' (sw_phases sw3) m2) as [Hp1 Hp2].
       split; (apply Forall_app; split; [assumption|constructor; [assumption|constructor]]).
   Qed.
+
   Lemma set_remotes_self m : set_remotes m (os_remotes m) = m.
   Proof. destruct m; reflexivity. Qed.
 
@@ -876,7 +962,7 @@ Section PassReplay.
     find_set (sw_sets sw1) (oi_kind (os_id mem1)) (oi_ns (os_id mem1)) (oi_name (os_id mem1)) = Some st ->
     same_but_rev mem1 st ->
     lifecycle_eqb (os_life mem1) LPaused = false ->
-    members_wf sw1 mem1 -> remotes_ready sw1 mem1 ->
+    members_wf sw1 mem1 -> remotes_ok sw1 mem1 -> remotes_recorded sw1 mem1 \/ not_own_prev mem1 ->
     body_go sw1 mem1 = (sw', evs, r) ->
     exists st', find_set (sw_sets sw') (oi_kind (os_id mem1)) (oi_ns (os_id mem1)) (oi_name (os_id mem1)) = Some st' /\
       spec_eq st' st /\ find_cond (os_conds st') CArchived = find_cond (os_conds st) CArchived /\
@@ -885,7 +971,7 @@ Section PassReplay.
         exists evs2, body_go sw' m2 = (sw', evs2, r) /\ Forall (quiet_sev st') evs2 /\
                      (r <> SError -> Forall (noop_sev st') evs2).
   Proof.
-    intros Hf Hsb Hpa Hwf Hrr. pose proof Hsb as (Hsp & Hrv & Hcd & Hct & Hrm).
+    intros Hf Hsb Hpa Hwf Hrr Hstable. pose proof Hsb as (Hsp & Hrv & Hcd & Hct & Hrm).
     (* what any second in-memory copy shares with the first *)
     assert (Htwin : forall st' m2, spec_eq st' st -> same_but_rev m2 st' -> os_revision m2 = os_revision mem1 ->
               as_owner m2 = as_owner mem1 /\ (forall ph, desired_phase m2 ph = desired_phase mem1 ph) /\
@@ -902,37 +988,59 @@ Section PassReplay.
     destruct (Nat.ltb 0 (dup_count [] (map (spec_key mem1) (all_objects mem1)))) eqn:Edup.
     - (* duplicate objects: Available=False is reported, nothing else *)
       intros H.
-      destruct (loop_tail_replay MPreflight sw1 [] mem1 st sw' evs r Hf Hsb H)
-        as (_ & _ & st' & Hf' & Hsp' & Har & Hor & _ & _ & Hagain).
-      exists st'. split; [exact Hf'|]. split; [exact Hsp'|]. split; [exact Har|]. split; [exact Hor|].
+      destruct (loop_tail_replay MPreflight sw1 [] mem1 st sw' evs r Hf Hsp Hrv Hcd H)
+        as (_ & _ & st' & Hf' & Hsp' & Har & Hor & _ & Hagain).
+      exists st'. split; [exact Hf'|]. split; [exact Hsp'|]. split; [exact Har|].
+      split. { destruct Hor as [[-> _]|[-> _]]; [now left|now right]. }
       intros m2 Hm2 Hrev2. destruct (Htwin st' m2 Hsp' Hm2 Hrev2) as (_ & _ & Hkeys & _).
-      destruct (Hagain m2 [] Hm2 Hrev2) as (tl & Hrun & Hq & Hn).
+      destruct Hm2 as (Hs2 & Hrv2 & Hcd2 & Hct2 & Hrm2).
+      assert (Hrm2' : os_remotes m2 = os_remotes mem1).
+      { rewrite Hrm2. destruct Hor as [[-> _]|[_ ->]]; [now symmetry|reflexivity]. }
+      destruct (Hagain m2 [] Hs2 Hrv2 Hcd2 Hct2 Hrev2 Hrm2') as (tl & Hrun & Hq & Hn).
       exists ([] ++ tl). unfold body_go. rewrite Hkeys, Edup. split; [exact Hrun|]. split; [exact Hq|intros _; exact Hn].
     - assert (Hdup0 : dup_count [] (map (spec_key mem1) (all_objects mem1)) = O) by (apply Nat.ltb_ge in Edup; lia).
       pose proof (dup_zero_nodup mem1 Hdup0) as Hnd.
       destruct (reconcile_phases_m force sw1 mem1 (as_owner mem1) (lookup_prev (sw_sets sw1) mem1) (os_phases mem1) [] (os_remotes mem1))
         as [[[sw2 pevs] rem] pr] eqn:Erp.
       destruct (rpm_replay force mem1 (as_owner mem1) (lookup_prev (sw_sets sw1) mem1) (os_phases mem1) sw1 [] (os_remotes mem1)
-                  sw2 pevs rem pr Hpa Hnd Hwf Hrr Erp) as (-> & Hph2 & Hsets2 & Hnss2 & Hnext).
-      rewrite set_remotes_self. intros H.
-      assert (Hf2 : find_set (sw_sets sw2) (oi_kind (os_id mem1)) (oi_ns (os_id mem1)) (oi_name (os_id mem1)) = Some st) by now rewrite Hsets2.
-      destruct (loop_tail_replay pr sw2 pevs mem1 st sw' evs r Hf2 Hsb H)
-        as (Hst3 & Hph3 & st' & Hf' & Hsp' & Har & Hor & Hrm' & Hlp & Hagain).
-      exists st'. split; [exact Hf'|]. split; [exact Hsp'|]. split; [exact Har|]. split; [exact Hor|].
+                  sw2 pevs rem pr Hpa Hnd Hwf Hrr Erp) as (Hph2 & Hsets2 & Hnss2 & ps & Hrem & Hps & Hnext).
+      (* the references gathered by the loop agree on the uid whenever they agree on the name *)
+      assert (Hfun : forall p q, In p ps -> In q ps -> fst p = fst q -> p = q).
+      { intros p q Hp Hq. destruct (Hps p Hp) as (ph & _ & _ & Hrp), (Hps q Hq) as (ph' & _ & _ & Hrq). eapply remote_ref_fun; eauto. }
+      assert (Hrec2 : forall p, In p ps -> recorded rem p) by (intros p Hp; rewrite Hrem; now apply fold_records_all).
+      (* the stored previous revisions look the same after the status write *)
+      assert (Hprev_ok : os_remotes (set_remotes mem1 rem) = os_remotes st \/ ~ In (oi_name (os_id st)) (os_prev mem1)).
+      { destruct Hstable as [Hall|Hnot].
+        - left. cbn [os_remotes set_remotes]. rewrite Hrem, <- Hrm. apply fold_recorded.
+          intros p Hp. destruct (Hps p Hp) as (ph & Hin & Hc & Hrp). now apply (Hall ph p).
+        - right. destruct Hsp as (<- & _). exact Hnot. }
+      intros H.
+      assert (Hf2 : find_set (sw_sets sw2) (oi_kind (os_id (set_remotes mem1 rem))) (oi_ns (os_id (set_remotes mem1 rem)))
+                      (oi_name (os_id (set_remotes mem1 rem))) = Some st) by (cbn [os_id set_remotes]; now rewrite Hsets2).
+      destruct (loop_tail_replay pr sw2 pevs (set_remotes mem1 rem) st sw' evs r Hf2 Hsp Hrv Hcd H)
+        as (Hst3 & Hph3 & st' & Hf' & Hsp' & Har & Hor & Hlp & Hagain).
+      cbn [os_id os_revision os_remotes set_remotes] in Hf', Hor, Hlp, Hagain.
+      exists st'. split; [exact Hf'|]. split; [exact Hsp'|]. split; [exact Har|].
+      split. { destruct Hor as [[-> _]|[-> _]]; [now left|now right]. }
       intros m2 Hm2 Hrev2. destruct (Htwin st' m2 Hsp' Hm2 Hrev2) as (Hown & Hdes & Hkeys & Hprev & Hphs & Hid).
-      assert (Hrm2 : os_remotes m2 = os_remotes mem1) by (destruct Hm2 as (_ & _ & _ & _ & ->); exact Hrm').
-      destruct (Hnext sw' m2) as (evs2 & Hrun & Hq & Hn).
+      destruct Hm2 as (Hs2 & Hrv2 & Hcd2 & Hct2 & Hrm2).
+      (* the second loop starts from the stored references and ends with the same references as the first *)
+      assert (Hfold : fold_left add_remote ps (os_remotes m2) = rem).
+      { rewrite Hrm2. destruct Hor as [[-> _]|[_ ->]]; [now rewrite <- Hrm|]. now apply fold_recorded. }
+      destruct (Hnext sw' m2 (os_remotes m2)) as (evs2 & Hrun & Hq & Hn).
       { intros k _. now rewrite Hst3. }
       { now rewrite Hph3. }
       { exact Hdes. }
       { now rewrite Hid. }
-      destruct (Hagain m2 evs2 Hm2 Hrev2) as (tl & Htl & Hqt & Hnt).
-      exists (evs2 ++ tl). unfold body_go. rewrite Hkeys, Edup, Hown, Hphs, Hprev, Hlp, Hsets2, Hrm2, Hrun.
-      rewrite <- Hrm2, set_remotes_self. split; [exact Htl|].
+      rewrite Hfold in Hrun.
+      destruct (Hagain (set_remotes m2 rem) evs2) as (tl & Htl & Hqt & Hnt); try assumption; try reflexivity.
+      exists (evs2 ++ tl). unfold body_go. rewrite Hkeys, Edup, Hown, Hphs, Hprev.
+      rewrite (Hlp mem1 Hprev_ok), Hsets2, Hrun. split; [exact Htl|].
       split; [apply Forall_app; split; [now apply quiet_lev_sev|exact Hqt]|].
       intros Hne. apply Forall_app. split; [|exact Hnt]. apply noop_lev_sev, Hn.
       intros ->. cbn in H. injection H as _ _ <-. now apply Hne.
   Qed.
+
   (** ** the reconciler loop of an ObjectSet whose revision is assigned *)
   Lemma revision_pass_assigned sw mem : os_revision mem <> 0%Z -> revision_pass sw mem = (sw, [], mem, RevGo).
   Proof. intros H. unfold revision_pass. apply Z.eqb_neq in H. now rewrite H. Qed.
@@ -940,7 +1048,7 @@ Section PassReplay.
   Lemma active_body_fixpoint sw evs0 mem sw1 evs1 r1 :
     find_set (sw_sets sw) (oi_kind (os_id mem)) (oi_ns (os_id mem)) (oi_name (os_id mem)) = Some mem ->
     os_revision mem <> 0%Z -> lifecycle_eqb (os_life mem) LPaused = false ->
-    members_wf sw mem -> remotes_ready sw mem ->
+    members_wf sw mem -> remotes_ok sw mem -> remotes_recorded sw mem \/ not_own_prev mem ->
     active_body force sw evs0 mem = (sw1, evs1, r1) ->
     exists st', find_set (sw_sets sw1) (oi_kind (os_id mem)) (oi_ns (os_id mem)) (oi_name (os_id mem)) = Some st' /\
       spec_eq st' mem /\ find_cond (os_conds st') CArchived = find_cond (os_conds mem) CArchived /\
@@ -948,9 +1056,9 @@ Section PassReplay.
       exists evs2, active_body force sw1 [] st' = (sw1, evs2, r1) /\ Forall (quiet_sev st') evs2 /\
                    (r1 <> SError -> Forall (noop_sev st') evs2).
   Proof.
-    intros Hf Hrev Hpa Hwf Hrr. rewrite (active_body_go sw evs0 mem sw [] mem (revision_pass_assigned sw mem Hrev)).
+    intros Hf Hrev Hpa Hwf Hrr Hstb. rewrite (active_body_go sw evs0 mem sw [] mem (revision_pass_assigned sw mem Hrev)).
     destruct (body_go sw mem) as [[swx evsx] rx] eqn:Eb. intros H. injection H as <- <- <-.
-    destruct (body_go_replay sw mem mem swx evsx rx Hf (same_but_rev_refl mem) Hpa Hwf Hrr Eb)
+    destruct (body_go_replay sw mem mem swx evsx rx Hf (same_but_rev_refl mem) Hpa Hwf Hrr Hstb Eb)
       as (st' & Hf' & Hsp' & Har & Hor & Hagain).
     assert (Hrev' : os_revision st' <> 0%Z) by (destruct Hor as [-> | ->]; exact Hrev).
     assert (Hrev2 : os_revision st' = os_revision mem) by (destruct Hor as [-> | ->]; reflexivity).
@@ -1020,30 +1128,41 @@ Section PassReplay.
     rewrite <- Hst, <- Hl. unfold key_of, desired_key, as_owner. cbn. now rewrite Hid.
   Qed.
 
-  Lemma remotes_ready_ext sw sw' m m' :
+  Lemma remotes_ok_ext sw sw' m m' :
     sw_phases sw' = sw_phases sw -> os_id m' = os_id m -> os_phases m' = os_phases m -> os_life m' = os_life m ->
-    os_remotes m' = os_remotes m ->
-    remotes_ready sw m -> remotes_ready sw' m'.
+    remotes_ok sw m -> remotes_ok sw' m'.
   Proof.
-    intros Hps Hid Hph Hl Hrm H ph Hin Hc. rewrite Hph in Hin. destruct (H ph Hin Hc) as (cur & Hf & Hct & Hp & Ha).
-    exists cur. unfold desired_phase, phase_kind in *. cbn in *. rewrite Hps, Hid, Hl, Hrm. auto.
+    intros Hps Hid Hph Hl H ph Hin Hc. rewrite Hph in Hin. destruct (H ph Hin Hc) as (cur & Hf & Hct & Hp).
+    exists cur. unfold desired_phase, phase_kind in *. cbn in *. rewrite Hps, Hid, Hl. auto.
+  Qed.
+
+  Lemma remotes_stable_ext sw sw' m m' :
+    sw_phases sw' = sw_phases sw -> os_id m' = os_id m -> os_phases m' = os_phases m -> os_prev m' = os_prev m ->
+    os_remotes m' = os_remotes m ->
+    remotes_recorded sw m \/ not_own_prev m -> remotes_recorded sw' m' \/ not_own_prev m'.
+  Proof.
+    intros Hps Hid Hph Hpv Hrm [H|H]; [left|right].
+    - intros ph p Hin Hc (cur & Hf & ->). rewrite Hph in Hin. rewrite Hrm.
+      unfold desired_phase, phase_kind in *. cbn in *. rewrite Hps, Hid in Hf. rewrite Hid.
+      apply (H ph _ Hin Hc). exists cur. split; [exact Hf|reflexivity].
+    - unfold not_own_prev. now rewrite Hid, Hpv.
   Qed.
 
   (** ** the reconciler loop of the controller (revision, phases, status), replayed: for ANY revision state *)
   Theorem active_body_replay sw evs0 mem sw1 evs1 r1 :
     find_set (sw_sets sw) (oi_kind (os_id mem)) (oi_ns (os_id mem)) (oi_name (os_id mem)) = Some mem ->
     lifecycle_eqb (os_life mem) LPaused = false ->
-    members_wf sw mem -> remotes_ready sw mem ->
+    members_wf sw mem -> remotes_ok sw mem -> remotes_recorded sw mem \/ not_own_prev mem ->
     active_body force sw evs0 mem = (sw1, evs1, r1) ->
     exists st', find_set (sw_sets sw1) (oi_kind (os_id mem)) (oi_ns (os_id mem)) (oi_name (os_id mem)) = Some st' /\
       spec_eq st' mem /\ find_cond (os_conds st') CArchived = find_cond (os_conds mem) CArchived /\
       exists evs2, active_body force sw1 [] st' = (sw1, evs2, r1) /\ Forall (quiet_sev st') evs2 /\
                    (r1 <> SError -> Forall (noop_sev st') evs2).
   Proof.
-    intros Hf Hpa Hwf Hrr.
+    intros Hf Hpa Hwf Hrr Hstb.
     destruct (Z.eqb (os_revision mem) 0) eqn:Ez.
     2:{ apply Z.eqb_neq in Ez. intros H.
-        destruct (active_body_fixpoint sw evs0 mem sw1 evs1 r1 Hf Ez Hpa Hwf Hrr H) as (st' & H1 & H2 & H3 & _ & H4).
+        destruct (active_body_fixpoint sw evs0 mem sw1 evs1 r1 Hf Ez Hpa Hwf Hrr Hstb H) as (st' & H1 & H2 & H3 & _ & H4).
         exists st'. auto. }
     destruct (os_prev mem) as [|pn pns] eqn:Epv.
     - (* no previous revision: revision 1 is assigned in memory and persisted with the status *)
@@ -1051,7 +1170,7 @@ Section PassReplay.
       rewrite (active_body_go sw evs0 mem sw [] _ Hrp).
       destruct (body_go sw (set_revision mem 1)) as [[swx evsx] rx] eqn:Eb. intros H. injection H as <- <- <-.
       assert (Hsb : same_but_rev (set_revision mem 1) mem) by (repeat split).
-      destruct (body_go_replay sw (set_revision mem 1) mem swx evsx rx Hf Hsb Hpa Hwf Hrr Eb)
+      destruct (body_go_replay sw (set_revision mem 1) mem swx evsx rx Hf Hsb Hpa Hwf Hrr Hstb Eb)
         as (st' & Hf' & Hsp' & Har & Hor & Hagain).
       exists st'. split; [exact Hf'|]. split; [exact Hsp'|]. split; [exact Har|].
       destruct (Z.eqb (os_revision st') 0) eqn:Ez'.
@@ -1084,10 +1203,13 @@ Section PassReplay.
         assert (Hpa' : lifecycle_eqb (os_life mema) LPaused = false) by (destruct Hspmm as (_&_&_&_&_&_&->&_); exact Hpa).
         assert (Hwf' : members_wf swa mema).
         { apply (members_wf_ext sw swa mem mema Hsta Hida); [now destruct Hspmm as (_&_&_&_&_&_&_&->&_)|exact Hwf]. }
-        assert (Hrr' : remotes_ready swa mema).
-        { apply (remotes_ready_ext sw swa mem mema Hpha Hida); try assumption;
+        assert (Hrr' : remotes_ok swa mema).
+        { apply (remotes_ok_ext sw swa mem mema Hpha Hida); try assumption;
             [now destruct Hspmm as (_&_&_&_&_&_&_&->&_)|now destruct Hspmm as (_&_&_&_&_&_&->&_)]. }
-        destruct (body_go_replay swa mema sta swx evsx rx Hfa' Hsba Hpa' Hwf' Hrr' Eb)
+        assert (Hstb' : remotes_recorded swa mema \/ not_own_prev mema).
+        { apply (remotes_stable_ext sw swa mem mema Hpha Hida); try assumption;
+            [now destruct Hspmm as (_&_&_&_&_&_&_&->&_)|now destruct Hspmm as (_&_&_&_&_&_&_&_&->)]. }
+        destruct (body_go_replay swa mema sta swx evsx rx Hfa' Hsba Hpa' Hwf' Hrr' Hstb' Eb)
           as (st' & Hf' & Hsp' & Har & Hor & Hagain).
         rewrite Hida in Hf'.
         exists st'. split; [exact Hf'|]. split; [eapply spec_eq_trans; eauto|].
@@ -1149,13 +1271,13 @@ Section PassReplay.
   Theorem pass_fixpoint sw k ns n mem0 sw1 evs1 r1 :
     find_set (sw_sets sw) k ns n = Some mem0 -> is_active mem0 ->
     os_life mem0 <> LPaused ->
-    members_wf sw mem0 -> remotes_ready sw mem0 ->
+    members_wf sw mem0 -> remotes_ok sw mem0 -> remotes_recorded sw mem0 \/ not_own_prev mem0 ->
     objectset_pass force sw k ns n = (sw1, evs1, r1) ->
     exists st' evs2, find_set (sw_sets sw1) k ns n = Some st' /\
       objectset_pass force sw1 k ns n = (sw1, evs2, r1) /\
       Forall (quiet_sev st') evs2 /\ (r1 <> SError -> Forall (noop_sev st') evs2).
   Proof.
-    intros Hfind (Harch & Hdel & Hlife) Hnp Hwf Hrr.
+    intros Hfind (Harch & Hdel & Hlife) Hnp Hwf Hrr Hstb.
     destruct (find_set_id _ _ _ _ _ Hfind) as (Hk & Hns & Hn).
     assert (Hpa : lifecycle_eqb (os_life mem0) LPaused = false) by (destruct (os_life mem0); try reflexivity; congruence).
     assert (Hla : lifecycle_eqb (os_life mem0) LArchived = false) by (destruct (os_life mem0); try reflexivity; congruence).
@@ -1177,7 +1299,7 @@ Section PassReplay.
     assert (Hf0 : find_set (sw_sets sw) (oi_kind (os_id mem0)) (oi_ns (os_id mem0)) (oi_name (os_id mem0)) = Some mem0) by now rewrite Hk, Hns, Hn.
     destruct (os_fin mem0) eqn:Efin.
     - intros H.
-      destruct (active_body_replay sw [] mem0 sw1 evs1 r1 Hf0 Hpa Hwf Hrr H) as (st' & Hf' & Hsp' & Har & Hrun).
+      destruct (active_body_replay sw [] mem0 sw1 evs1 r1 Hf0 Hpa Hwf Hrr Hstb H) as (st' & Hf' & Hsp' & Har & Hrun).
       exact (Hsecond mem0 st' eq_refl Hdel eq_refl Efin Harch Hf' Hsp' Har Hrun).
     - unfold patch_finalizer. rewrite Hf0, N.eqb_refl. cbn [negb andb].
       set (m := set_fin mem0 true (w_rv (sw_w sw))).
@@ -1185,7 +1307,7 @@ Section PassReplay.
       intros H.
       assert (Hfm : find_set (sw_sets sw0) (oi_kind (os_id m)) (oi_ns (os_id m)) (oi_name (os_id m)) = Some m).
       { apply (find_put_set (sw_sets sw) m mem0). exact Hf0. }
-      destruct (active_body_replay sw0 _ m sw1 evs1 r1 Hfm Hpa Hwf Hrr H) as (st' & Hf' & Hsp' & Har & Hrun).
+      destruct (active_body_replay sw0 _ m sw1 evs1 r1 Hfm Hpa Hwf Hrr Hstb H) as (st' & Hf' & Hsp' & Har & Hrun).
       exact (Hsecond m st' eq_refl Hdel eq_refl eq_refl Harch Hf' Hsp' Har Hrun).
   Qed.
 
@@ -1193,12 +1315,12 @@ Section PassReplay.
       every phase) is followed by passes that write nothing at all: world unchanged, all member requests no-op applies. *)
   Corollary quiescent_pass sw k ns n mem0 sw1 evs1 requeue :
     find_set (sw_sets sw) k ns n = Some mem0 -> is_active mem0 -> os_life mem0 <> LPaused ->
-    members_wf sw mem0 -> remotes_ready sw mem0 ->
+    members_wf sw mem0 -> remotes_ok sw mem0 -> remotes_recorded sw mem0 \/ not_own_prev mem0 ->
     objectset_pass force sw k ns n = (sw1, evs1, SDone requeue) ->
     exists st' evs2, find_set (sw_sets sw1) k ns n = Some st' /\
       objectset_pass force sw1 k ns n = (sw1, evs2, SDone requeue) /\ Forall (noop_sev st') evs2.
   Proof.
-    intros H1 H2 H3 H4 H5 H6. destruct (pass_fixpoint sw k ns n mem0 sw1 evs1 _ H1 H2 H3 H4 H5 H6) as (st' & evs2 & Ha & Hb & _ & Hc).
+    intros H1 H2 H3 H4 H5 H6 H7. destruct (pass_fixpoint sw k ns n mem0 sw1 evs1 _ H1 H2 H3 H4 H5 H6 H7) as (st' & evs2 & Ha & Hb & _ & Hc).
     exists st', evs2. split; [exact Ha|]. split; [exact Hb|]. apply Hc. discriminate.
   Qed.
 End PassReplay.
